@@ -923,6 +923,10 @@ type c18Attempt struct {
 	Status int
 	Body   []byte
 	Dur    time.Duration
+	// RetryAfter, when set, is sent as the Retry-After header of the response. The property gives it
+	// no meaning (a 4xx is final for the provider, a 5xx is retried on the back-off schedule), so it
+	// is not part of the oracle token.
+	RetryAfter string
 }
 
 func (a c18Attempt) token() string {
@@ -1007,7 +1011,11 @@ func (tr *c18Transport) RoundTrip(req *http.Request) (*http.Response, error) {
 		return &http.Response{StatusCode: a.Status, Status: fmt.Sprintf("%d scripted", a.Status), Header: http.Header{},
 			Body: io.NopCloser(c18ErrReader{}), Request: req, ProtoMajor: 1, ProtoMinor: 1}, nil
 	}
-	return &http.Response{StatusCode: a.Status, Status: fmt.Sprintf("%d scripted", a.Status), Header: http.Header{},
+	hdr := http.Header{}
+	if a.RetryAfter != "" {
+		hdr.Set("Retry-After", a.RetryAfter)
+	}
+	return &http.Response{StatusCode: a.Status, Status: fmt.Sprintf("%d scripted", a.Status), Header: hdr,
 		Body: io.NopCloser(bytes.NewReader(a.Body)), Request: req, ProtoMajor: 1, ProtoMinor: 1, ContentLength: int64(len(a.Body))}, nil
 }
 
@@ -1104,6 +1112,9 @@ func c18GenAttempt(r *hx.RNG, long bool) c18Attempt {
 		if r.Chance(3, 5) { // mostly addresses, so that retries and successes are common
 			a.Body = c18Bodies[r.Intn(9)]
 		}
+		if a.Status >= 400 && r.Chance(1, 4) {
+			a.RetryAfter = hx.Pick(r, []string{"0", "1", "2", "120", "Wed, 21 Oct 2026 07:28:00 GMT", "soon"})
+		}
 	}
 	switch k := r.Intn(10); {
 	case k < 4:
@@ -1160,6 +1171,10 @@ func c18PubCatalog() []c18PubCase {
 		{Kind: 'r', Status: 200, Body: []byte("<html>captive portal</html>")},
 		{Kind: 'r', Status: 404, Body: []byte("203.0.113.7")},
 		{Kind: 'r', Status: 429, Body: []byte("203.0.113.7")},
+		{Kind: 'r', Status: 429, Body: []byte("slow down"), RetryAfter: "0"},
+		{Kind: 'r', Status: 429, Body: []byte("slow down"), RetryAfter: "1"},
+		{Kind: 'r', Status: 403, Body: []byte("no"), RetryAfter: "Wed, 21 Oct 2026 07:28:00 GMT"},
+		{Kind: 'r', Status: 503, Body: []byte("busy"), RetryAfter: "0"},
 		{Kind: 'r', Status: 500, Body: []byte("203.0.113.7\n")},
 		{Kind: 'r', Status: 503, Body: []byte("Service Unavailable")},
 		{Kind: 'r', Status: 503, Body: nil},
